@@ -710,6 +710,15 @@ def run(ctx):
     from .. import beliefs
     ctx.rule('C02.desc', 'the description keeps what it read: no value read from the definition is replaced because it is falsy (bus 0)')
     beliefs.rule_ordefault(ctx, 'C02.desc', ['sc3.synth.synthdesc'])
+    ru = ctx.repo.func('sc3.synth.synthdesc:SynthDesc._read_ugen_spec2')
+    rsrc = full(ru.node)
+    ok = 'b = ugen.inputs[0]' in rsrc and 'cmp_index = b._output_index + b.source_ugen._special_index' in rsrc and \
+        'if item.index == cmp_index: control = item break' in rsrc and 'iolst.append(IODesc(rate, nchan, b, ugen_class))' in rsrc
+    ctx.ob('C02.desc', f'{ru.fq}.add_iodesc:bus', ok,
+           'the bus of an input/output unit is its first input; a control output is named by the control whose slot is output index + special index', ru.node, ru.module)
+    ok = 'elif issubclass(ugen_class, iou.AbstractIn): add_iodesc(self.inputs, len(ugen._channels))' in rsrc and \
+        'elif issubclass(ugen_class, iou.AbstractOut): add_iodesc(self.outputs, ugen._num_audio_channels())' in rsrc
+    ctx.ob('C02.desc', f'{ru.fq}:io-lists', ok, 'In units are listed as inputs with their channel count, Out units as outputs with their signal channel count', ru.node, ru.module)
     io = ctx.repo.cls('sc3.synth.synthdesc:IODesc').methods['__init__']
     ctx.ob('C02.desc', f'{io.fq}:starting-channel', "self.starting_channel = '?' if starting_channel is None else starting_channel" in full(io.node),
            'only a missing starting channel is shown as ?; bus 0 stays 0', io.node, io.module)
@@ -725,6 +734,10 @@ def run(ctx):
 
 
 MUTANTS = [
+    dict(rule='C02.desc', name='description lists Out units as inputs', file='sc3/synth/synthdesc.py',
+         old="            add_iodesc(self.outputs, ugen._num_audio_channels())", new="            add_iodesc(self.inputs, ugen._num_audio_channels())"),
+    dict(rule='C02.desc', name='control bus name looked up without the special index', file='sc3/synth/synthdesc.py',
+         old="                cmp_index = b._output_index + b.source_ugen._special_index", new="                cmp_index = b._output_index"),
     dict(rule='C02.valid', name='writer emits duplicated control names (fix reverted)', file='sc3/synth/synthdef.py',
          old="                elif item.name in cnames:\n                    raise Exception(\n                        f\"duplicated control name '{item.name}'\")\n", new=""),
     dict(rule='C02.valid', name='writer name limit above the reader limit', file='sc3/synth/synthdef.py',
